@@ -1197,7 +1197,9 @@ func (d *DotGit) checkReferenceAndTruncate(f billy.File, old *plumbing.Reference
 		return err
 	}
 
-	if ref.Hash() != old.Hash() {
+	// Symbolic references all have the zero hash: compare what they point to.
+	if ref.Type() != old.Type() || ref.Hash() != old.Hash() ||
+		(ref.Type() == plumbing.SymbolicReference && ref.Target() != old.Target()) {
 		return storage.ErrReferenceHasChanged
 	}
 	_, err = f.Seek(0, io.SeekStart)
